@@ -13,6 +13,8 @@ func init() {
 			{Name: "TAB-NIBBLE", What: "base code tables are mutually inverse and equal \"=ACMGRSVTWYHKDBN\"; contract/Expand use the high nibble for even positions", Floor: 18, Run: ruleNibble},
 			{Name: "PATH-OMIT", What: "Omit modes: exactly the omitted parts are not decoded", Floor: 1, Run: rulePathOmit},
 			{Name: "PATH-AUXALL", What: "buildAux appends every aux field on every path round its loop", Floor: 1, Run: ruleAuxAll},
+			{Name: "LEN-EXACT", What: "bam.newBuffer hands the decoder exactly block_size bytes on every path (added after seed C05-d)", Floor: 3, Run: ruleLenExact},
+			{Name: "REF-INDEP", What: "bam.Reader.Read decodes the reference and the mate reference independently of each other's id (added after seed C05-c)", Floor: 2, Run: ruleRefIndep},
 			{Name: "PATH-SHARED", What: "a record buffer whose data aliases Reader-owned memory is marked shared (so retained slices are copies)", Floor: 1, Run: ruleBufShared},
 			{Name: "ERR-LATCH", What: "bam.Reader.Read consults the buffer's sticky error; EncodeBinary consults its errWriter", Floor: 2,
 				Run: ruleStickyErr([]latchCfg{{pkg: "bam", fn: "(*Reader).Read", typ: "buffer", fld: "err"}, {pkg: "sam", fn: "(*Header).EncodeBinary", typ: "errWriter", fld: "err"}})},
